@@ -144,9 +144,9 @@ def m_partition(ex, st, s, args, kwargs, node, reverse=False):
     else:
         cut = nt(st.ctx, z3.If(found, s.lo + i, s.hi), "pc")
         after = nt(st.ctx, z3.If(found, s.lo + i + 1, s.hi), "pa")
-    head = VStr(s.a, s.lo, cut)
+    head = V.intern_view(st.ctx, VStr(s.a, s.lo, cut))
     sep = VStr(s.a, cut, after)
-    tail = VStr(s.a, after, s.hi)
+    tail = V.intern_view(st.ctx, VStr(s.a, after, s.hi))
     yield VTuple([head, sep, tail]), st
 
 
@@ -161,7 +161,7 @@ def m_lstrip(ex, st, s, args, kwargs, node):
         yield lit(s.conc.lstrip(args[0].conc)), st
         return
     r = V.first_of(st.ctx, s, V.codes_of(args[0]), negate=True)
-    yield VStr(s.a, V.name_term(st.ctx, s.lo + r, 'ls'), s.hi), st
+    yield V.intern_view(st.ctx, VStr(s.a, V.name_term(st.ctx, s.lo + r, 'ls'), s.hi)), st
 
 
 def m_rstrip(ex, st, s, args, kwargs, node):
@@ -352,7 +352,7 @@ def b_int(ex, st, args, kwargs, node):
         else:
             ex.oblige(st, "int()-cannot-raise", "safety", z3.And(strict, short), node, {"exception": "ValueError"})
             if not st.guards:
-                st.ctx.add(z3.And(strict, short))
+                st.ctx.assume(z3.And(strict, short))
             yield VInt(dec), st
         return
     raise Unsupported(f"int({v!r})")
@@ -544,7 +544,12 @@ def p_opaque_bool(ex, st, args, kwargs, node):
     yield VBool(opaque_bool(st.ctx, name, *args[1:])), st
 
 
+def p_cut(ex, st, args, kwargs, node):
+    yield NONE, st
+
+
 SPEC_PRIMS = {
+    "CUT": p_cut,
     "first_of": p_first_of, "first_not_of": p_first_not_of, "last_index": p_last_index,
     "all_chars_in": p_all_chars_in, "lower_ascii": p_lower_ascii, "remove_char": p_remove_char,
     "dec_value": p_dec_value, "is_ascii_digits": p_is_ascii_digits, "re_match_": p_re_match,
